@@ -2,6 +2,7 @@ package main
 
 import (
 	"fmt"
+	"go/token"
 	"go/types"
 	"regexp"
 	"sort"
@@ -1057,6 +1058,57 @@ func parserCursor(p *Prog) *cursorPlaces {
 		}
 		if len(toks) == 1 && len(pos) == 1 {
 			return &cursorPlaces{owner, toks[0], owner, pos[0], path}
+		}
+		if len(toks) == 1 && len(pos) > 1 {
+			// several integer fields: the position is the one the token list is indexed with
+			used := map[string]bool{}
+			for _, fn := range p.ModuleFuncs() {
+				if fnPkgName(fn) != "parser" {
+					continue
+				}
+				instrsOf(fn, func(in ssa.Instruction) {
+					var base, idx ssa.Value
+					switch x := in.(type) {
+					case *ssa.IndexAddr:
+						base, idx = x.X, x.Index
+					case *ssa.Index:
+						base, idx = x.X, x.Index
+					default:
+						return
+					}
+					fieldOf := func(v ssa.Value) (string, string) {
+						for i := 0; i < 4; i++ {
+							switch y := v.(type) {
+							case *ssa.BinOp:
+								if _, isK := constInt(y.Y); isK && (y.Op == token.ADD || y.Op == token.SUB) {
+									v = y.X
+									continue
+								}
+							case *ssa.UnOp:
+								if fa, ok := y.X.(*ssa.FieldAddr); ok && y.Op == token.MUL {
+									return structKey(fa.X.Type(), fa.Field)
+								}
+							}
+							break
+						}
+						return "", ""
+					}
+					bt, bf := fieldOf(base)
+					it, itf := fieldOf(idx)
+					if bt == owner && bf == toks[0] && it == owner {
+						used[itf] = true
+					}
+				})
+			}
+			var cand []string
+			for _, f := range pos {
+				if used[f] {
+					cand = append(cand, f)
+				}
+			}
+			if len(cand) == 1 {
+				return &cursorPlaces{owner, toks[0], owner, cand[0], path}
+			}
 		}
 		return nil
 	}
